@@ -78,7 +78,7 @@ type OptSpec struct {
 
 // Session is a case descriptor: one NETCONF session of N consecutive requests on one stream.
 type Session struct {
-	Kind    string `json:"kind"`    // grid | random | sweep | big | hazard | noanswer | caps | stall | alias (how it was generated)
+	Kind    string `json:"kind"`    // grid | random | sweep | big | hazard | noanswer | caps | stall | alias | log (how it was generated)
 	Version string `json:"version"` // 1.0 | 1.1
 	Via     string `json:"via"`     // caps: server offers only that version; preferred: server offers both, client option selects
 	Force   bool   `json:"force"`   // options.WithNetconfForceSelfClosingTags
@@ -87,7 +87,10 @@ type Session struct {
 	// WD names the with-defaults variant among them (evidence only).
 	Caps []string `json:"caps,omitempty"`
 	WD   string   `json:"wd,omitempty"`
-	Reqs []Req    `json:"reqs"`
+	// Log: "" the driver has no logger; "debug" | "info" | "critical": a logging.Instance at that level
+	// with one logger function attached (options.WithLogger).
+	Log  string `json:"log,omitempty"`
+	Reqs []Req  `json:"reqs"`
 	// Pool is the shared option array of an "alias" session; StallMs the maximal stall of a "stall" session.
 	Pool    []OptSpec  `json:"pool,omitempty"`
 	StallMs int        `json:"stall_ms,omitempty"`
